@@ -91,8 +91,39 @@ def compare(expected, real):
     return None
 
 
+def oscillation_schedule(rng):
+    """One cache key whose rendering oscillates between needing and not needing a block-wise transfer,
+    with a later-block request placed around T after the FIRST rendering but well within T of the
+    latest one (it must be served): exercises the interplay of Block2Cache's discard with the
+    TimeoutDict timers."""
+    big = rng.choice([40, 100, 1500])
+    small = rng.choice([0, 5, 16])
+    szx = rng.choice([0, 1])
+    d1 = rng.choice([50, 1000, T_REAL // 2])
+    d2 = d1 + rng.choice([50, 1000, T_REAL // 3])
+    later = T_REAL + rng.choice([1, 1000, T_REAL // 4])
+    pattern = rng.choice([[big, small, big], [big, small, small, big], [small, big, small, big]])
+    times = [0, d1, d2, d2 + 40][: len(pattern)]
+    steps = []
+    n = 0
+    for t, _l in zip(times, pattern):
+        n += 1
+        steps.append({"at": t, "do": "rx", "r": 1, "ty": "NON", "code": 1, "mid": 300 + n, "tok": "%04x" % (0xC000 + n),
+                      "path": ["h", "2"], "b2": [0, 0, szx]})
+    for num in (1, 2):
+        n += 1
+        steps.append({"at": later + num, "do": "rx", "r": 1, "ty": "NON", "code": 1, "mid": 300 + n, "tok": "%04x" % (0xC000 + n),
+                      "path": ["h", "2"], "b2": [num, 0, szx]})
+    handlers = {"1": {"delay": 0, "outcome": "nocode", "len": 0},
+                "2": {"delay": 0, "canon": True, "outcome": "ok", "lens": pattern}}
+    return {"tuning": {"EMPTY_ACK_DELAY": 0.125}, "mid0": rng.randint(0, 65535), "tok0": 5, "nremotes": 4,
+            "handlers": handlers, "steps": steps, "triggers": [], "horizon": 300 * 1024}
+
+
 def random_schedule(rng):
     """Real parameters.  Each (endpoint, method, cache key) has its own canonical body."""
+    if rng.random() < 0.12:
+        return oscillation_schedule(rng)
     steps = []
     nrem = rng.choice([1, 2, 3])
     t = 0
